@@ -429,8 +429,9 @@ def replay_all(pid, traces, res, drv):
     layers, relevant = RELEVANT[pid]
     lines, cases = [], []
     for sc, r, trace in traces:
-        if sc.get("cancel_top") is not None:
-            # a top-level run cancelled from outside is not an event of the model: judged by the oracles only
+        if sc.get("cancel_top") is not None or sc.get("busy"):
+            # a top-level run cancelled from outside, or time passing while the loop is busy (the model's clock only
+            # advances in quiet states: assumption A2), are not events of the model: judged by the oracles only
             res.dist["not_replayed"] = res.dist.get("not_replayed", 0) + 1
             continue
         try:
